@@ -87,6 +87,8 @@ def check(rep, an, tier):
     for name, fn in sorted(methods.items()):
         if name in REGISTRATIONS or name in FITS or name in ("__init__", "register_bounds"):
             continue
+        if name.startswith("_") and not name.startswith("__"):
+            continue        # private helpers are covered transitively through the public methods that call them
         # ------------------------------------------------------------ queries (incl. properties, aliases, helpers, plots)
         kw = ARGS.get(name, lambda: {})()
         plot = name.endswith("_plot")
